@@ -4,6 +4,27 @@ import json, os
 V = os.path.dirname(os.path.dirname(os.path.abspath(__file__)))
 HOOK_COMMITS = ["3789170", "404af39", "c77e773"]
 CHECKS = {
+ "C01": dict(cat="translation_validation", tech="Coq-proved IR semantics as oracle: per-program validation of the optimiser's dumped IR against canonical BF.v; (proof at level 0 in progress)",
+   text="For every generated program x width x input x level 0..4(+100): the IR dumped from the current build is executed by the Coq model of the IR interpreter (IR.v, extracted) and must produce the canonical event sequence of BF.v; the Rust IrInterpreter must produce the same sequence; levels >3 must dump the level-3 IR. The optimiser itself is not modelled, so levels >=1 are validated per program, not proved for all programs.",
+   note="Trusted: Coq kernel, extraction, driver, harness, IR serialiser. opt.rs is not modelled (validated per program). Programs whose canonical run exceeds the fuel are skipped.", ref="§4 C01"),
+ "C02": dict(cat="translation_validation", tech="per-program validation of dumped bytecode through BC.v semantics against canonical BF.v, debug and release dispatch",
+   text="Bytecode dumped from CodeGen::translate(..,2,true) is executed by the Coq bytecode semantics (BC.v) and compared with the canonical semantics; BcInterpreter is run in debug (trampolined) and release (tail-called) builds on the same programs, levels 0..3, four widths.",
+   note="bc.rs is not modelled; BC.v mirrors ops.rs operand order and is tied by the same runs.", ref="§4 C02"),
+ "C03": dict(cat="translation_validation", tech="per-program validation: JIT event trace vs canonical BF.v; 11-register bytecode validated through BC.v",
+   text="BaseJitCompiler is executed on generated programs (incl. register-pressure programs with >=12 live values and 64-bit constant chains) and must produce the canonical event sequence; the bytecode it compiles (translate(..,11,false)) is validated through BC.v.",
+   note="Machine code is executed on the CPU; the instruction-selection table proof of DESIGN §4 C03 is not yet part of this check.", ref="§4 C03"),
+ "C04": dict(cat="translation_validation", tech="Inplace.v machine model + canonical BF.v; correspondence model<->InplaceInterpreter (proof of the simulation in progress)",
+   text="The in-place interpreter (debug and release) is compared with the canonical semantics and with the Coq model of its pc/loop-stack machine (Inplace.v) on generated programs, four widths.",
+   note="Until Props/C04.v lands this is validation of the implementation against the Coq semantics, not a proof.", ref="§4 C04"),
+ "C05": dict(cat="translation_validation", tech="state-repeat divergence certificates computed and re-checked by the extracted Coq machine; backends observed in child processes",
+   text="Programs are classified by the extracted canonical machine: halting, or divergent with a state-repeat certificate re-validated by the Coq function cert_ok. Certified-divergent programs must not return from any backend/level within the window and their streamed events must be a prefix of the certified periodic word; halting programs must return with the canonical events.",
+   note="Non-return is observed through a wall-clock window.", ref="§4 C05"),
+ "C07": dict(cat="translation_validation", tech="limited-run engine models (Inplace.v/IR.v/BC.v with budget) vs execute_limited; property conditions checked against canonical classification",
+   text="For every program (halting or certified divergent) x backend x level x budget: (finished, events) must satisfy the property (prefix / complete when finished / finished at 2^62 / never finished when divergent) and equal the result of the budgeted Coq engine models for the three interpreters.",
+   note="Time bound observed by wall clock only.", ref="§4 C07"),
+ "C08": dict(cat="fault_enumeration", tech="fault positions enumerated over the canonical trace; expected behaviour = Coq canonical semantics under the faulty environment (IO.v)",
+   text="For each halting program with I/O the failing input request / refused output byte index is enumerated over its canonical trace (plus absent input, absent sink); all four backends must return normally with exactly the canonical events up to and including the failing operation.",
+   note="Faults injected through Read/Write objects; LLVM backend not built.", ref="§4 C08"),
  "C14": dict(cat="proof", tech="Coq proof (Cell.v, Props/C14.v) + differential correspondence model<->CellType",
    text="Universal Coq theorems (all widths w>=1, all operands) for wrapping_div (least solution / none), wrapping_inv, wrapping_pow and the conversions, about a hand-written Gallina model mirroring src/lib.rs; the model is tied to the current source on every run by running the extracted model and the public CellType methods (debug and release) on the same cases, exhaustively at 8 bits.",
    note="Trusted: Coq kernel, extraction (ExtrOcamlBasic), ocaml/driver.ml, harness; Cell.v is hand-written (modelled, tied by correspondence). No axioms.", ref="§4 C14"),
